@@ -740,6 +740,17 @@ func (x *Exec) evalCall(env *SpecEnv, e ECall) Val {
 		return Val{T: mkIte(lt, b.T, a.T), Typ: a.Typ}
 	}
 	switch e.Fun {
+	case "fresh":
+		// fresh(x): the object / backing array x refers to was allocated after the
+		// function under contract was entered
+		v := x.evalVal(env, e.Args[0])
+		ref := v.T
+		if v.T.Sort == "Slice" {
+			ref = Term{app("s_ref", v.T), "Int"}
+		} else if v.T.Sort == "Iface" {
+			ref = Term{app("i_val", v.T), "Int"}
+		}
+		return Val{T: Term{app(">", ref, x.entry.Alloc), "Bool"}, Typ: types.Typ[types.Bool]}
 	case "mulfits", "addfits", "subfits":
 		// the mathematical result of the operation on the two operands fits their Go type
 		a, b := x.unify(x.evalVal(env, e.Args[0]), x.evalVal(env, e.Args[1]))
@@ -784,7 +795,7 @@ func (x *Exec) evalCall(env *SpecEnv, e ECall) Val {
 					}
 					args = append(args, av)
 				}
-				return x.ufCall(p.Name(), args, sig, env.cur)
+				return x.ufCall(p.Name(), args, sig, nil)
 			}
 		}
 	}
@@ -913,6 +924,31 @@ func (x *Exec) evalMethod(env *SpecEnv, e EMethod) Val {
 	// spec-level methods on time.Time and similar abstract values
 	if isTime(recv.Typ) {
 		return x.timeMethodSpec(env, recv, e)
+	}
+	// pure method of an interface with a specification: the same uninterpreted function
+	// the code's invoke uses
+	if recv.Typ != nil {
+		if it, ok := recv.Typ.Underlying().(*types.Interface); ok {
+			name := types.TypeString(recv.Typ, func(p *types.Package) string { return p.Name() })
+			if is, ok := x.DB.Ifaces[name]; ok {
+				if ms, ok := is.Methods[e.Name]; ok && ms.Pure {
+					for i := 0; i < it.NumMethods(); i++ {
+						if m := it.Method(i); m.Name() == e.Name {
+							sig := m.Type().(*types.Signature)
+							var args []Val
+							for k, a := range e.Args {
+								av := x.evalVal(env, a)
+								if k < sig.Params().Len() {
+									av = x.coerce(av, sig.Params().At(k).Type())
+								}
+								args = append(args, av)
+							}
+							return x.ifaceUF(is, ms, recv, args, sig, nil)
+						}
+					}
+				}
+			}
+		}
 	}
 	// real method: find it in the method set and inline
 	if recv.Typ != nil {
